@@ -278,6 +278,13 @@ func runProp[C any](t *testing.T, ev *Ev, sub string, journal bool, gen func(*ra
 					err = fmt.Errorf("INFRA: harness panic: %v\n%s", r, debug.Stack())
 				}
 			}()
+			if f := os.Getenv("VERIF_FORCE_INFRA_ONCE"); f != "" {
+				// self-test of the driver's retry of set-up failures
+				if _, serr := os.Stat(f); serr != nil {
+					_ = os.WriteFile(f, nil, 0o644)
+					return fmt.Errorf("INFRA: forced once")
+				}
+			}
 			return run(c, ev)
 		}()
 		if err != nil && strings.HasPrefix(err.Error(), "DISCARD:") {
